@@ -2,14 +2,14 @@
 # Re-validate the machinery against every kept seed: apply seeded/<id>/patch.diff to a scratch copy of /repo,
 # run the quick tier of each check listed in meta.json "caught_by" against the copy, expect exit 1 + VIOLATION.
 # usage: tools/run_seeds.sh [ids...]      prints one line per (seed, check): CAUGHT | MISSED
-cd "$(dirname "$(readlink -f "$0")")/.."
+cd "$(dirname "$(readlink -f "$0")")/.."; root=$(pwd)
 ids=${@:-$(ls seeded)}
 miss=0
 for id in $ids; do
   checks=$(/venv/bin/python -c "import json;print(' '.join(json.load(open('seeded/$id/meta.json'))['caught_by']))")
   d=$(mktemp -d /tmp/bbs.XXXXXX)
   rsync -a --exclude .git /repo/ "$d/"
-  if ! (cd "$d" && patch --binary -p1 -s < "$PWD/seeded/$id/patch.diff"); then echo "$id PATCH-FAILED"; miss=1; rm -rf "$d"; continue; fi
+  if ! (cd "$d" && patch --binary -p1 -s < "$root/seeded/$id/patch.diff"); then echo "$id PATCH-FAILED"; miss=1; rm -rf "$d"; continue; fi
   for c in $checks; do
     out=$(BBV_REPO="$d" /venv/bin/python -m bbv.run $c --tier quick --no-evidence 2>&1); rc=$?
     nv=$(echo "$out" | grep -c '^VIOLATION')
